@@ -160,9 +160,11 @@ func (s *Schema) Rels() []Rel {
 	}
 
 	sort.Slice(rels, func(i, j int) bool {
-		name1 := rels[i].FromType + rels[i].FromName
-		name2 := rels[j].FromType + rels[j].FromName
-		return name1 < name2
+		if rels[i].FromType != rels[j].FromType {
+			return rels[i].FromType < rels[j].FromType
+		}
+
+		return rels[i].FromName < rels[j].FromName
 	})
 
 	return rels
